@@ -25,6 +25,7 @@
 void model_allocator_lp_init(struct mm_state *self)
 {
 	array_init(self->buddies);
+	array_init(self->buddies_by_age);
 	array_init(self->logs);
 	self->full_ckpt_size = offsetof(struct mm_checkpoint, chkps) + sizeof(struct buddy_state *);
 }
@@ -42,6 +43,7 @@ void model_allocator_lp_fini(struct mm_state *self)
 		mm_free(array_get_at(self->buddies, i));
 
 	array_fini(self->buddies);
+	array_fini(self->buddies_by_age);
 }
 
 void *rs_malloc(size_t req_size)
@@ -59,9 +61,11 @@ void *rs_malloc(size_t req_size)
 	struct mm_state *self = &current_lp->mm_state;
 	self->full_ckpt_size += 1 << req_blks_exp;
 
-	array_count_t i = array_count(self->buddies);
-	while(i--) {
-		void *ret = buddy_malloc(array_get_at(self->buddies, i), req_blks_exp);
+	// oldest first: a silent re-execution after a rollback must get the very same blocks again, although the buddy
+	// systems created after the restored checkpoint are still around (empty)
+	array_count_t i;
+	for(i = 0; i < array_count(self->buddies_by_age); ++i) {
+		void *ret = buddy_malloc(array_get_at(self->buddies_by_age, i), req_blks_exp);
 		if(likely(ret != NULL))
 			return ret;
 	}
@@ -74,6 +78,7 @@ void *rs_malloc(size_t req_size)
 			break;
 
 	array_add_at(self->buddies, i, new_buddy);
+	array_push(self->buddies_by_age, new_buddy);
 	self->full_ckpt_size += offsetof(struct buddy_checkpoint, base_mem);
 	return buddy_malloc(new_buddy, req_blks_exp);
 }
